@@ -148,26 +148,23 @@ Definition absorb (s : bstate) (input : list Z) : bstate :=
 (* internal_final + copy of the first outlen bytes *)
 Definition blake2b_fin (s : bstate) : list Z := finish (bout s) (bh s, bt s, bbuf s).
 
-(* hex helper for test vectors *)
-Definition hexdigit (d : Z) : Z := if d <? 10 then 48 + d else 87 + d.
-Definition to_hex (bs : list Z) : list Z :=
-  flat_map (fun b => [hexdigit (Z.shiftr b 4); hexdigit (Z.land b 15)]) bs.
-
-(* test-vector helpers: ASCII string -> bytes, hex string -> bytes (total; a
-   non-hex digit counts as 0) *)
-Require Import Coq.Strings.String Coq.Strings.Ascii.
-Fixpoint str_bytes (s : string) : list Z :=
-  match s with
-  | EmptyString => []
-  | String c r => Z.of_N (N_of_ascii c) :: str_bytes r
+(* ---- RFC 7693 section 3.3 literally, indexed over the padded blocks d[0..dd-1] ----
+   dd = max 1 (ceil (ll / 128)); d[i] = bytes 128 i .. 128 i + 127 of the message,
+   zero padded; for i = 0 .. dd-2: h := F(h, d[i], (i+1)*128, FALSE);
+   h := F(h, d[dd-1], ll, TRUE); first nn bytes of h little-endian.
+   [blake2b] above is proved equal to it (Blake2bProofs.blake2b_rfc_eq). *)
+Definition nblocks (ll : nat) : nat := if (ll =? 0)%nat then 1%nat else ((ll + 127) / 128)%nat.
+Definition dblock (msg : list Z) (i : nat) : list Z := pad128 (firstn 128 (skipn (128 * i) msg)).
+(* (argument order: the two arguments that differ between a call and its
+   recursive call come first and last, so that a conversion check between the
+   two fails at once instead of weak-head normalising an application of F) *)
+Fixpoint rfc_loop (c : nat) (msg : list Z) (h : list Z) (i : nat) : list Z :=
+  match c with
+  | O => h
+  | S c' => rfc_loop c' msg (F h (dblock msg i) ((Z.of_nat i + 1) * 128) false) (S i)
   end.
-Definition unhexdigit (c : Z) : Z :=
-  if (48 <=? c) && (c <=? 57) then c - 48
-  else if (97 <=? c) && (c <=? 102) then c - 87
-  else if (65 <=? c) && (c <=? 70) then c - 55 else 0.
-Fixpoint unhex_bytes (s : list Z) : list Z :=
-  match s with
-  | hi :: lo :: r => (16 * unhexdigit hi + unhexdigit lo) :: unhex_bytes r
-  | _ => []
-  end.
-Definition unhex (s : string) : list Z := unhex_bytes (str_bytes s).
+Definition blake2b_rfc (nn : Z) (msg : list Z) : list Z :=
+  let dd := nblocks (length msg) in
+  let h := rfc_loop (dd - 1) msg (h0 nn) 0 in
+  firstn (Z.to_nat nn)
+         (flat_map (word_le_bytes 8) (F h (dblock msg (dd - 1)) (zlen msg) true)).
